@@ -1,4 +1,125 @@
 (** C07 — HTTP/1 requests are parsed exactly, independent of TCP segmentation.
-    Only statements here; proofs are in Proofs/Http1ReadProofs.v. *)
-From KV Require Import Bytes RustInt Http1Read Http1ReadProofs.
+    Only statements here; proofs are in Proofs/Http1ReadProofs.v.
+
+    [serve grow mode https dh max_len limit stream sched] is the model of
+    [kvarn_async::read::request] followed by [Http1Body::read_to_bytes(limit)] on a connection that
+    carries [stream] and hands it out in the bursts of the read schedule [sched] (each read gets
+    [min burst window] bytes); afterwards the peer closes ([mode] 0), stalls (1) or fails (2).
+    [grow] is the reallocation policy of [BytesMut::reserve], only assumed to keep its promise
+    ([grow_ok]: the new capacity is at least [len + additional]). *)
+From KV Require Import Bytes RustInt Http1Read Http1ReadProofs Http1ReadParseProofs.
 Open Scope N_scope.
+
+(** parse (print g) = g.  [g] ranges over the request grammar [greq_ok]: a method token of at most
+    7 letters that starts like a known method, a non-empty target without SP/CR/LF, HTTP/1.0 or
+    1.1, header lines [name ":" SP^k value CRLF] (any k, including 0) with token names that are
+    unique up to case and values of visible ASCII/SP not starting with SP.  [expect] is the
+    specification: method, path, query, version, header list, authority (the target is judged by
+    the [http] crate's [Uri] parser, transcribed as [parse_uri]) and the first
+    [min content-length limit] bytes of whatever follows the blank line.  For every schedule that
+    delivers the head and the body, every growth function, every end mode, every trailing bytes
+    (the next request): the reader returns exactly that. *)
+Theorem parse_print : forall grow mode https dh (max_len : nat) limit (g : greq) rest (sched : list nat) e,
+  grow_ok grow -> sched_pos sched -> greq_ok g = true -> (length (print_head g) <= max_len)%nat ->
+  expect https dh limit g rest = Some e ->
+  (N.to_nat (N.min (body_length (g_method g) (g_hmap g)) limit) <= length rest)%nat ->
+  (length (print_head g) + N.to_nat (N.min (body_length (g_method g) (g_hmap g)) limit) <= sum_sched sched)%nat ->
+  exists sv, serve grow mode https dh max_len limit (print_head g ++ rest) sched = Ok sv /\ observed sv = Some e.
+Proof. exact parse_print_lemma. Qed.
+
+(** The parser alone: the printed head followed by anything parses to the printed request, and
+    the bytes after the blank line are exactly what followed (no byte lost or duplicated). *)
+Theorem parse_print_head : forall https dh (g : greq) extra host auth path query,
+  greq_ok g = true -> g_host dh g = Some host -> parse_uri https host (g_target g) = Some (auth, path, query) ->
+  parse_request https dh (print_head g ++ extra) =
+  Ok (mk_request (g_method g) path query (if g_v11 g then 11 else 10) (g_hmap g) auth extra).
+Proof. exact parse_request_print. Qed.
+
+(** Two arbitrary ways of cutting the same bytes into reads (and two growth functions, two end
+    modes) give the same request and the same body. *)
+Theorem schedule_independent : forall grow1 grow2 mode1 mode2 https dh (max_len : nat) limit (g : greq) rest (sched1 sched2 : list nat),
+  grow_ok grow1 -> grow_ok grow2 -> sched_pos sched1 -> sched_pos sched2 ->
+  greq_ok g = true -> (length (print_head g) <= max_len)%nat ->
+  expect https dh limit g rest <> None ->
+  (N.to_nat (N.min (body_length (g_method g) (g_hmap g)) limit) <= length rest)%nat ->
+  (length (print_head g) + N.to_nat (N.min (body_length (g_method g) (g_hmap g)) limit) <= sum_sched sched1)%nat ->
+  (length (print_head g) + N.to_nat (N.min (body_length (g_method g) (g_hmap g)) limit) <= sum_sched sched2)%nat ->
+  exists sv1 sv2,
+    serve grow1 mode1 https dh max_len limit (print_head g ++ rest) sched1 = Ok sv1 /\
+    serve grow2 mode2 https dh max_len limit (print_head g ++ rest) sched2 = Ok sv2 /\
+    observed sv1 = observed sv2 /\ observed sv1 <> None.
+Proof. exact schedule_independent_lemma. Qed.
+
+(** No blank line within the first [max_len] bytes (16 384 in kvarn): an error — for every read
+    schedule (zero-length reads included), every growth function, every end mode. *)
+Theorem head_limit : forall grow mode https dh (max_len : nat) limit stream (sched : list nat),
+  contains_two_newlines (firstn max_len stream) = false ->
+  exists e, serve grow mode https dh max_len limit stream sched = Err e /\
+            (e = E_TOO_LONG \/ e = E_UNEXPECTED_END \/ e = E_SYNTAX).
+Proof. exact head_limit_lemma. Qed.
+
+(** The peer stops (closes, stalls until the timeout, fails) before the blank line has been
+    delivered: an error, never a partial request. *)
+Theorem stalled_head : forall grow mode https dh (max_len : nat) limit stream (sched : list nat),
+  contains_two_newlines (firstn (sum_sched sched) stream) = false ->
+  exists e, serve grow mode https dh max_len limit stream sched = Err e /\
+            (e = E_TOO_LONG \/ e = E_UNEXPECTED_END \/ e = E_SYNTAX).
+Proof. exact stalled_lemma. Qed.
+
+(** [Http1Body::read_to_bytes]: when the [min content_length limit] bytes are delivered, exactly
+    they are returned, for every schedule, and the connection keeps everything behind them
+    (the next request). *)
+Theorem body_exact : forall grow mode early (cl limit : N) stream (sched : list nat),
+  grow_ok grow -> sched_pos sched ->
+  (N.to_nat (N.min cl limit) <= length early + Nat.min (sum_sched sched) (length stream))%nat ->
+  exists r', read_to_bytes grow mode early cl limit (mk_reader stream sched) =
+               Ok (firstn (N.to_nat (N.min cl limit)) (early ++ stream), r') /\
+             rd_data r' = skipn (N.to_nat (N.min cl limit) - length early) stream.
+Proof. exact body_exact_lemma. Qed.
+
+(** ... and in every case (short bodies: EOF gives what there is, a stall TimedOut, a failure the
+    I/O error) the result is [body_spec], a function of the delivered bytes, not of the schedule. *)
+Theorem body_any_schedule : forall grow mode early (cl limit : N) stream (sched : list nat),
+  grow_ok grow -> sched_pos sched ->
+  match body_spec mode early cl limit (firstn (sum_sched sched) stream) with
+  | Ok b => exists r', read_to_bytes grow mode early cl limit (mk_reader stream sched) = Ok (b, r')
+  | Err e => read_to_bytes grow mode early cl limit (mk_reader stream sched) = Err e
+  | Panic => False
+  end.
+Proof. exact body_any_schedule. Qed.
+
+(** Non-vacuity *)
+Example grow_meets_hypothesis : grow_ok vec_grow.
+Proof. exact vec_grow_ok. Qed.
+
+Example head_limit_ex :
+  contains_two_newlines (firstn 20%nat (B "GET /a-long-target-that-never-ends HTTP/1.1")) = false /\
+  serve vec_grow 0 false None 20%nat 100 (B "GET /a-long-target-that-never-ends HTTP/1.1") [7; 100]%nat = Err E_TOO_LONG.
+Proof. vm_compute. split; reflexivity. Qed.
+
+Example stalled_ex :
+  contains_two_newlines (firstn (sum_sched [5; 12]%nat) (B "GET / HTTP/1.1" ++ [13; 10; 13; 10])) = false /\
+  serve vec_grow 1 false None 64%nat 100 (B "GET / HTTP/1.1" ++ [13; 10; 13; 10]) [5; 12]%nat = Err E_UNEXPECTED_END.
+Proof. vm_compute. split; reflexivity. Qed.
+
+Example body_exact_ex :
+  sched_pos [3; 2; 50]%nat /\
+  match read_to_bytes vec_grow 0 (B "he") 5 1000 (mk_reader (B "lloGET /next") [3; 2; 50]%nat) with
+  | Ok (b, r') => b = B "hello" /\ rd_data r' = B "GET /next"
+  | _ => False
+  end.
+Proof. split; [repeat constructor|vm_compute; split; reflexivity]. Qed.
+
+Definition ex_req : greq :=
+  mk_greq (B "POST") (B "/p?x=1") true
+    [mk_hline (B "Host") 1 (B "ex.org"); mk_hline (B "Content-Length") 0 (B "5"); mk_hline (B "X-A") 3 (B "b c")].
+Example parse_print_ex :
+  greq_ok ex_req = true /\ sched_pos [1; 30; 7; 100]%nat /\
+  expect false None 65536 ex_req (B "helloGET /next") =
+    Some (mk_expected (B "POST") (B "/p") (Some (B "x=1")) 11
+            [(B "host", B "ex.org"); (B "content-length", B "5"); (B "x-a", B "b c")] (B "ex.org") (B "hello")) /\
+  option_map observed
+    (match serve vec_grow 0 false None (N.to_nat 16384) 65536 (print_head ex_req ++ B "helloGET /next") [1; 30; 7; 100]%nat
+     with Ok sv => Some sv | _ => None end) =
+  Some (expect false None 65536 ex_req (B "helloGET /next")).
+Proof. split; [vm_compute; reflexivity|]. split; [repeat constructor|]. split; vm_compute; reflexivity. Qed.
